@@ -43,6 +43,9 @@ class FieldWriter(Native):
             v, n = args[0], args[1]
             if isinstance(v, float) and v == int(v):
                 v = int(v)
+            if v is None or isinstance(v, (str, bytes, list, tuple, dict)):
+                # bitstring refuses a value that is not a number (trusted base)
+                raise Raise('TypeError', node, interp.where(node, frame))
             if not (isinstance(v, int) and not isinstance(v, bool) and isinstance(n, int)):
                 raise AnalysisError('write_uint(%r, %r): operands do not fold to integers' % (v, n))
             if v < 0 or v >= 2 ** n or n <= 0:
@@ -52,6 +55,9 @@ class FieldWriter(Native):
             return v
         if name == 'write_bytes':
             v, n = args[0], args[1]
+            if v is None or (isinstance(v, (int, float)) and not isinstance(v, bool)):
+                # BitStringBitWriter.write_bytes needs a string (len() of None is a TypeError): refusal
+                raise Raise('TypeError', node, interp.where(node, frame))
             if not isinstance(v, (str, bytes)) or not isinstance(n, int):
                 raise AnalysisError('write_bytes(%r, %r): operands do not fold' % (v, n))
             if n > 0:
@@ -264,7 +270,7 @@ def domains(tier):
         [None, 'A', 'AB', 'AB  ', '  AB', 'ABCD', 'ABCDE', '\xe9']
     nmax = 4 if deep else 3
     out = []
-    for kind, width, vals in (('numeric', num_w, num_vals), ('codeflag', 3, cf_vals), ('string', str_w, str_vals)):
+    for kind, width, vals in (('numeric', num_w, num_vals), ('codeflag', 3, cf_vals), ('codeflag', 1, [0, 1]), ('string', str_w, str_vals)):
         cols = []
         for k in range(1, nmax + 1):
             if kind == 'string' and k == nmax and not deep:
@@ -350,6 +356,24 @@ def rule_columns(repo, tier='quick', rule_id='C05.R12', only=None):
                                 'decodes to %s; expected %s (all ones of the difference width = missing)' % (kind, mn, wd, list(diffs), got if got is not None else derr, want),
                                 witness={'width': wd, 'differences': list(diffs)})
             rr.instance('%s decoder: difference widths 1..6 with 0 / 1 / all-ones-1 / all-ones differences' % kind)
+        if not only or 'codeflag' in only:
+            # a code / flag value reconstructed as minimum + difference that is all ones of the *element* width is missing (width > 1)
+            fi_d = repo.method('Decoder', 'process_codeflag_compressed')
+            for w, mn, wd, diffs, want in ((1, 0, 2, [1, 0], [1, 0]), (1, 1, 0, [], 'one-bit-equal'), (3, 5, 2, [2, 1, 0], [None, 6, 5]), (3, 0, 3, [7, 6, 5], [None, 6, 5]), (4, 12, 2, [3, 2], [None, 14]), (3, 7, 0, [], None),
+                                           (2, 1, 2, [2, 1], [None, 2]), (4, 0, 4, [15, 14, 7], [None, 14, 7])):
+                n += 1
+                if want == 'one-bit-equal':
+                    fields, nsub, want = [('uint', w, mn), ('uint', 6, 0)], 2, [1, 1]        # a one-bit field cannot be missing
+                elif want is None:
+                    fields, nsub, want = [('uint', w, mn), ('uint', 6, 0)], 2, [None, None]
+                else:
+                    fields, nsub = [('uint', w, mn), ('uint', 6, wd)] + [('uint', wd, d) for d in diffs], len(diffs)
+                got, derr = decode_fields(repo, 'codeflag', fields, nsub, w, True)
+                if got is None or not same(got, want):
+                    rr.fail('column:codeflag:all-ones-recheck', fi_d.where, 'a compressed %d-bit code column with minimum %d, difference width %d and differences %s decodes to %s; '
+                            'expected %s (minimum + difference equal to all ones of the element width is missing)' % (w, mn, wd, diffs, got if got is not None else derr, want),
+                            witness={'width': w, 'minimum': mn, 'differences': diffs})
+            rr.instance('code/flag decoder: reconstructed all-ones values of the element width are missing')
     # the difference width rule itself, on both sides of every power of two up to 64 bits (float shortcuts lose bits beyond 2**53)
     if not only or 'numeric' in only or 'codeflag' in only:
         fw = repo.func('encoder', 'nbits_for_uint')
